@@ -151,6 +151,8 @@ pub enum AxisClass {
     Clustered,
     Random,
     Dyadic,
+    /// explicit non-uniform axis whose ends are exactly 0 and n-1 (looks like the index axis at both ends)
+    Anchored,
 }
 
 impl AxisClass {
@@ -163,9 +165,10 @@ impl AxisClass {
             AxisClass::Clustered => "clustered",
             AxisClass::Random => "random",
             AxisClass::Dyadic => "dyadic",
+            AxisClass::Anchored => "anchored",
         }
     }
-    pub const ALL: [AxisClass; 7] = [
+    pub const ALL: [AxisClass; 8] = [
         AxisClass::Index,
         AxisClass::Unit,
         AxisClass::Uniform,
@@ -173,6 +176,7 @@ impl AxisClass {
         AxisClass::Clustered,
         AxisClass::Random,
         AxisClass::Dyadic,
+        AxisClass::Anchored,
     ];
 }
 
@@ -284,6 +288,26 @@ pub fn axis<T: Flt>(src: &mut Src, n: usize, class: AxisClass, max_ratio_log2: O
                 x.push(cur);
             }
         }
+        AxisClass::Anchored => {
+            // interior knots at random positions, then mapped affinely onto [0, n-1]
+            let spread = match max_ratio_log2 {
+                Some(b) => (b as i32 - 2).max(0),
+                None => 8,
+            };
+            let mut cum = vec![0f64];
+            for _ in 1..n {
+                let h = (1.0 + src.unit() * 0.999) * 2f64.powi(src.int_in(0, spread as i64) as i32);
+                cum.push(cum.last().unwrap() + h);
+            }
+            let total = *cum.last().unwrap();
+            for c in &cum {
+                x.push(if total > 0.0 { c / total * (n - 1) as f64 } else { 0.0 });
+            }
+            x[0] = 0.0;
+            if n > 1 {
+                x[n - 1] = (n - 1) as f64;
+            }
+        }
         AxisClass::Dyadic => {
             // integers * 2^-g with a small mantissa budget: all differences, midpoints and
             // quarter points are exactly representable
@@ -301,6 +325,12 @@ pub fn axis<T: Flt>(src: &mut Src, n: usize, class: AxisClass, max_ratio_log2: O
         }
     }
     fix_increasing::<T>(&mut x);
+    if class == AxisClass::Anchored && n >= 2 && x[n - 1] != (n - 1) as f64 {
+        // rounding collided near the end: fall back to the plain index positions
+        for (i, v) in x.iter_mut().enumerate() {
+            *v = i as f64;
+        }
+    }
     if let Some(b) = max_ratio_log2 {
         // enforce the bound after rounding; fall back to a uniform dyadic axis if violated
         let hs: Vec<f64> = x.windows(2).map(|w| w[1] - w[0]).collect();
@@ -315,7 +345,7 @@ pub fn axis<T: Flt>(src: &mut Src, n: usize, class: AxisClass, max_ratio_log2: O
 }
 
 pub fn axis_class(src: &mut Src) -> AxisClass {
-    AxisClass::ALL[src.weighted(&[2, 2, 3, 3, 3, 4, 3])]
+    AxisClass::ALL[src.weighted(&[2, 2, 3, 3, 3, 4, 3, 2])]
 }
 
 pub fn is_uniform(x: &[f64]) -> bool {
